@@ -12,3 +12,10 @@ import PPProofs.Props.C04Iter
 #print axioms PP.Parse.iterLoop_no_hang
 #print axioms PP.Parse.iterRef_plain
 #print axioms PP.Parse.growLoop_lrBody_loop
+#print axioms PP.Parse.parseLR_frame
+#print axioms PP.Parse.parseLR_body_eq_lrBody
+#print axioms PP.Parse.parseLR_direct_eq_iterative_partial
+#print axioms PP.Parse.growLoop_congr
+#print axioms PP.Parse.growLoop_enhFix
+#print axioms PP.Parse.tailOf_strict
+#print axioms PP.Parse.parse_lit1_strict
